@@ -76,7 +76,7 @@ def check(ctx):
     bad += d.run_batch(many_waiters_cases())
     rng = ctx.rng("model")
     batch = []
-    for i in range(300 if quick else 4000):
+    for i in range(300 if quick else 20000):
         batch.append(("c09:%d" % i, model_case(rng)))
         if len(batch) == 100:
             bad += d.run_batch(batch); batch = []
@@ -86,7 +86,7 @@ def check(ctx):
     # (b) engine A/B at every boundary
     rng = ctx.rng("ab")
     runs = cases = fails = 0
-    for i in range(25 if quick else 400):
+    for i in range(25 if quick else 1500):
         if i % 2 == 0:
             base, src = schedgen.gen_vars_case(rng)
             desc = src
